@@ -5,7 +5,9 @@ package gengo
 import (
 	"errors"
 	"go/parser"
+	"go/types"
 	"path"
+	"path/filepath"
 	"strconv"
 	"strings"
 
@@ -41,17 +43,45 @@ func spec_importGoPath(p string) string {
 //@   ensures spec_dot(s) > 0 ==> result0 == spec_importGoPath(s[:spec_dot(s)]) && result1 == s[spec_dot(s)+1:spec_cut(s)]
 //@   ensures spec_dot(s) <= 0 ==> result0 == "" && result1 == s[:spec_cut(s)]
 
+// spec_enabled(name, tags): the enablement rule of C06 on ONE tag map: an exact `gengo:<name>` tag decides by itself
+// (disabled iff its value is `false`), otherwise any `gengo:<name>:<sub>` tag enables, otherwise not enabled.
+func spec_enabled(name string, tags map[string][]string) bool {
+	if spec_has(tags, "gengo:"+name) {
+		return strings.Join(tags["gengo:"+name], "") != "false"
+	}
+	return spec_any(func(k string) bool { return spec_has(tags, k) && strings.HasPrefix(k, "gengo:"+name+":") })
+}
+
+// spec_enabled3(name, G, P, D): the same rule on the EFFECTIVE tags: declaration tags D over package tags P over
+// global tags G (the statement of C06, without building the merged map).
+func spec_enabled3(name string, G, P, D map[string][]string) bool {
+	if spec_has(D, "gengo:"+name) {
+		return strings.Join(D["gengo:"+name], "") != "false"
+	}
+	if spec_has(P, "gengo:"+name) {
+		return strings.Join(P["gengo:"+name], "") != "false"
+	}
+	if spec_has(G, "gengo:"+name) {
+		return strings.Join(G["gengo:"+name], "") != "false"
+	}
+	return spec_any(func(k string) bool {
+		return (spec_has(G, k) || spec_has(P, k) || spec_has(D, k)) && strings.HasPrefix(k, "gengo:"+name+":")
+	})
+}
+
 //@ func IsGeneratorEnabled
 //@   props C06 C04
+//@   pure
 //@   requires g != nil
-//@   ensures has(tags, "gengo:"+g.Name()) ==> result == (strings.Join(tags["gengo:"+g.Name()], "") != "false")
-//@   ensures !has(tags, "gengo:"+g.Name()) ==> result == (exists k string :: has(tags, k) && strings.HasPrefix(k, "gengo:"+g.Name()+":"))
+//@   ensures result == spec_enabled(g.Name(), tags)
 //@   loop 1 invariant forall a int :: 0 <= a && a < it1 ==> ks1[a] != prefix
 //@   loop 1 invariant enabled == (exists a int :: 0 <= a && a < it1 && strings.HasPrefix(ks1[a], prefix+":"))
 
 //@ func merge
 //@   props C06 C04
+//@   pure
 //@   ensures forall k string :: has(result, k) == (exists i int :: 0 <= i && i < len(tagsList) && has(tagsList[i], k))
+//@   ensures forall k string, i int :: 0 <= i && i < len(tagsList) && has(tagsList[i], k) ==> has(result, k)
 //@   ensures forall k string, i int :: 0 <= i && i < len(tagsList) && has(tagsList[i], k) && (forall j int :: i < j && j < len(tagsList) ==> !has(tagsList[j], k)) ==> eq(result[k], tagsList[i][k])
 //@   loop 1 invariant forall k string :: has(mergedTags, k) == (exists i int :: 0 <= i && i < it1 && has(tagsList[i], k))
 //@   loop 1 invariant forall k string, i int :: 0 <= i && i < it1 && has(tagsList[i], k) && (forall j int :: i < j && j < it1 ==> !has(tagsList[j], k)) ==> eq(mergedTags[k], tagsList[i][k])
@@ -61,12 +91,131 @@ func spec_importGoPath(p string) string {
 
 // ---- orchestration: Execute / pkgExecute / doGenerate / WriteToFile (C02 C05 C06 C07) ----
 
+// spec_declTags(c, o): the tags of the doc comment directly above the declaration of o.
+func spec_declTags(c *gengoCtx, o types.Object) map[string][]string {
+	return spec_declTagsU(c.universe, o)
+}
+
+//@ func gengoCtx.Doc
+//@   props C06
+//@   pure
+//@   requires c != nil && c.universe != nil && c.args != nil && typ != nil && typ.Pkg() != nil && c.universe.Package(typ.Pkg().Path()) != nil
+//@   ensures forall k string :: has(c.args.Globals, k) ==> has(result0, k)
+//@   ensures forall k string :: has(c.pkgTags, k) ==> has(result0, k)
+//@   ensures forall k string :: has(spec_declTags(c, typ), k) ==> has(result0, k)
+//@   ensures forall k string :: has(result0, k) ==> has(c.args.Globals, k) || has(c.pkgTags, k) || has(spec_declTags(c, typ), k)
+//@   ensures forall k string :: has(spec_declTags(c, typ), k) ==> eq(result0[k], spec_declTags(c, typ)[k])
+//@   ensures forall k string :: !has(spec_declTags(c, typ), k) && has(c.pkgTags, k) ==> eq(result0[k], c.pkgTags[k])
+//@   ensures forall k string :: !has(spec_declTags(c, typ), k) && !has(c.pkgTags, k) && has(c.args.Globals, k) ==> eq(result0[k], c.args.Globals[k])
+//@   ensures forall name string :: spec_enabled(name, result0) == spec_enabled3(name, c.args.Globals, c.pkgTags, spec_declTags(c, typ))
+//@   note effective tags = declaration doc tags over package doc tags over global tags; deciding enablement on the merged map is the same as applying the rule level by level (last clause)
+
+// lemma_effectiveEnabled (C06): deciding enablement on the merged map that Doc returns is the same as applying the
+// rule to the three levels with declaration > package > global precedence.
+func lemma_effectiveEnabled(c *gengoCtx, g Generator, o types.Object) {
+	tags, _ := c.Doc(o)
+	spec_assert(IsGeneratorEnabled(g, tags) == spec_enabled3(g.Name(), c.args.Globals, c.pkgTags, spec_declTags(c, o)))
+}
+
+//@ func lemma_effectiveEnabled
+//@   props C06
+//@   requires g != nil && c != nil && c.universe != nil && c.args != nil && o != nil && o.Pkg() != nil && c.universe.Package(o.Pkg().Path()) != nil
+
+func spec_isAliasGen(g Generator) bool { _, ok := g.(AliasGenerator); return ok }
+
+// spec_dispatchKind: which entry point doGenerate invokes for one package-level type name (0: none): a defined
+// (non-alias) named type goes to GenerateType, an alias to GenerateAliasType (only if the generator has one),
+// both only when the effective tags (declaration doc tags over package tags P over global tags G) enable the generator.
+func spec_dispatchKind(u *gengotypes.Universe, G, P map[string][]string, g Generator, tn *types.TypeName) int {
+	if a, ok := tn.Type().(*types.Alias); ok {
+		if spec_enabled3(g.Name(), G, P, spec_declTagsU(u, a.Obj())) && spec_isAliasGen(g) {
+			return spec_GenAlias
+		}
+		return 0
+	}
+	if n, ok := tn.Type().(*types.Named); ok {
+		if spec_enabled3(g.Name(), G, P, spec_declTagsU(u, n.Obj())) {
+			return spec_GenType
+		}
+	}
+	return 0
+}
+
+// spec_declTagsU(u, o): the tags of the doc comment directly above the declaration of o, in universe u.
+func spec_declTagsU(u *gengotypes.Universe, o types.Object) map[string][]string {
+	tags, _ := u.Package(o.Pkg().Path()).Doc(o.Pos())
+	return tags
+}
+
+// spec_dispatchLog(u, G, P, g, ts, names, n): the calls made for the first n names, in order (Err not specified).
+func spec_dispatchLog(u *gengotypes.Universe, G, P map[string][]string, g Generator, ts map[string]*types.TypeName, names []string, n int) []spec_Call {
+	if n <= 0 {
+		return nil
+	}
+	if spec_dispatchKind(u, G, P, g, ts[names[n-1]]) == 0 {
+		return spec_dispatchLog(u, G, P, g, ts, names, n-1)
+	}
+	return append(spec_dispatchLog(u, G, P, g, ts, names, n-1), spec_Call{spec_dispatchKind(u, G, P, g, ts[names[n-1]]), g, ts[names[n-1]].Type(), nil})
+}
+
+// spec_sameCalls: two call logs agree on what was called, by whom, for what (the returned errors aside).
+func spec_sameCalls(a, b []spec_Call) bool {
+	return len(a) == len(b) && spec_forallIn(0, len(a), func(i int) bool { return a[i].Kind == b[i].Kind && a[i].Gen == b[i].Gen && a[i].Obj == b[i].Obj })
+}
+
+//@ func gengoCtx.doGenerate
+//@   props C06 C02 C04
+//@   requires c != nil && c.l != nil && g != nil && c.universe != nil && c.args != nil
+//@   requires c.pkg != nil ==> forall n string :: has(c.pkg.Types(), n) ==> c.pkg.Types()[n] != nil && spec_docOK(c, c.pkg.Types()[n])
+//@   assigns *
+//@   preserves pkg/gengo. go/ast. go/token. golang.org/x/tools/go/packages. except pkg/gengo.gengoCtx.defers, pkg/gengo.gengoCtx.ignore
+//@   effects
+//@   ensures eq(spec_fx(), old(spec_fx()))
+//@   ensures len(spec_calls()) > len(old(spec_calls())) ==> spec_callMark() == len(spec_fx())
+//@   ensures len(spec_calls()) == len(old(spec_calls())) ==> spec_callMark() == old(spec_callMark())
+//@   ensures len(spec_calls()) >= len(old(spec_calls())) && eq(spec_calls()[:len(old(spec_calls()))], old(spec_calls()))
+//@   ensures forall i int :: len(old(spec_calls())) <= i && i < len(spec_calls()) ==> spec_calls()[i].Gen == g
+//@   ensures old(c.pkg) == nil ==> result == nil && eq(spec_calls(), old(spec_calls()))
+//@   ensures old(c.pkg) != nil && result == nil ==> spec_sameCalls(spec_calls()[len(old(spec_calls())):], spec_dispatchLog(old(c.universe), old(c.args.Globals), old(c.pkgTags), g, old(c.pkg.Types()), spec_sortedKeys(old(c.pkg.Types())), len(old(c.pkg.Types()))))
+//@   ensures result != nil ==> len(spec_calls()) > len(old(spec_calls())) && spec_lastCall().Err == result && !spec_swallowed(result)
+//@   ensures old(c.pkg) != nil && result != nil ==> exists m int :: 1 <= m && m <= len(old(c.pkg.Types())) && spec_sameCalls(spec_calls()[len(old(spec_calls())):], spec_dispatchLog(old(c.universe), old(c.args.Globals), old(c.pkgTags), g, old(c.pkg.Types()), spec_sortedKeys(old(c.pkg.Types())), m))
+//@   loop 1 invariant eq(names, ks1[:it1])
+//@   loop 2 invariant c.pkg != nil && c.l != nil && c.universe == old(c.universe) && c.args != nil && eq(c.args.Globals, old(c.args.Globals)) && eq(c.pkgTags, old(c.pkgTags)) && eq(pkgTypes, old(c.pkg.Types())) && eq(spec_fx(), old(spec_fx()))
+//@   loop 2 invariant len(spec_calls()) >= len(old(spec_calls())) && eq(spec_calls()[:len(old(spec_calls()))], old(spec_calls()))
+//@   loop 2 invariant (len(spec_calls()) > len(old(spec_calls())) ==> spec_callMark() == len(spec_fx())) && (len(spec_calls()) == len(old(spec_calls())) ==> spec_callMark() == old(spec_callMark()))
+//@   loop 2 invariant forall i int :: len(old(spec_calls())) <= i && i < len(spec_calls()) ==> spec_calls()[i].Gen == g
+//@   loop 2 invariant spec_sameCalls(spec_calls()[len(old(spec_calls())):], spec_dispatchLog(old(c.universe), old(c.args.Globals), old(c.pkgTags), g, pkgTypes, xs2, it2))
+//@   loop 2 hint spec_dispatchLog(old(c.universe), old(c.args.Globals), old(c.pkgTags), g, pkgTypes, xs2, it2+1)
+//@   note GenerateType is invoked exactly for the enabled package-level named types of the type table, in ascending name order, aliases only through GenerateAliasType, each at most once (names are map keys); the first non-swallowed error stops the dispatch and is returned unchanged
+//@   note stable: generators are ASSUMED not to modify the framework's own context fields (they are unexported)
+
+// spec_docOK: what Doc needs of a type name.
+func spec_docOK(c *gengoCtx, tn *types.TypeName) bool {
+	return spec_objOK(c, spec_namedObj(tn))
+}
+
+func spec_namedObj(tn *types.TypeName) types.Object {
+	if a, ok := tn.Type().(*types.Alias); ok {
+		return a.Obj()
+	}
+	if n, ok := tn.Type().(*types.Named); ok {
+		return n.Obj()
+	}
+	return tn
+}
+
+func spec_objOK(c *gengoCtx, o types.Object) bool {
+	return o != nil && o.Pkg() != nil && c.universe.Package(o.Pkg().Path()) != nil
+}
+
 //@ func Generator.GenerateType
 //@   calllog 1
-//@   note user code: may do anything to the heap; ASSUMED to perform no file-system effect of its own; each invocation is recorded in the ghost call log with the error it returned
+//@   preserves pkg/gengo. go/ast. go/token. golang.org/x/tools/go/packages. except pkg/gengo.gengoCtx.defers, pkg/gengo.gengoCtx.ignore
+//@   note user code: may do anything to the heap EXCEPT to the framework's own (unexported) fields of package gengo other than the Defer list and the ignore flag, and to the loaded syntax trees / file set / module records, which are treated as immutable (preserves); ASSUMED to perform no file-system effect of its own; each invocation is recorded in the ghost call log with the error it returned
 
 //@ func AliasGenerator.GenerateAliasType
 //@   calllog 2
+//@   preserves pkg/gengo. go/ast. go/token. golang.org/x/tools/go/packages. except pkg/gengo.gengoCtx.defers, pkg/gengo.gengoCtx.ignore
 //@   note user code, like Generator.GenerateType
 
 //@ func AliasGenerator.Name
@@ -84,8 +233,10 @@ func spec_lastCall() spec_Call { return spec_calls()[len(spec_calls())-1] }
 //@   props C02 C06 C07
 //@   requires c != nil && c.l != nil && g != nil && x != nil
 //@   assigns *
+//@   preserves pkg/gengo. go/ast. go/token. golang.org/x/tools/go/packages. except pkg/gengo.gengoCtx.defers, pkg/gengo.gengoCtx.ignore
 //@   effects
 //@   ensures eq(spec_fx(), old(spec_fx()))
+//@   ensures spec_callMark() == len(spec_fx())
 //@   ensures len(spec_calls()) == len(old(spec_calls()))+1 && eq(spec_calls()[:len(old(spec_calls()))], old(spec_calls()))
 //@   ensures spec_lastCall().Kind == spec_GenType && spec_lastCall().Gen == g && spec_lastCall().Obj == x
 //@   ensures spec_lastCall().Err == nil || spec_swallowed(spec_lastCall().Err) ==> result == nil
@@ -96,14 +247,18 @@ func spec_lastCall() spec_Call { return spec_calls()[len(spec_calls())-1] }
 //@   props C02 C06
 //@   requires c != nil && c.l != nil && g != nil && x != nil
 //@   assigns *
+//@   preserves pkg/gengo. go/ast. go/token. golang.org/x/tools/go/packages. except pkg/gengo.gengoCtx.defers, pkg/gengo.gengoCtx.ignore
 //@   effects
 //@   ensures eq(spec_fx(), old(spec_fx()))
+//@   ensures spec_callMark() == len(spec_fx())
 //@   ensures len(spec_calls()) == len(old(spec_calls()))+1 && eq(spec_calls()[:len(old(spec_calls()))], old(spec_calls()))
 //@   ensures spec_lastCall().Kind == spec_GenAlias && spec_lastCall().Gen == g && spec_lastCall().Obj == x
 //@   ensures spec_lastCall().Err == nil || spec_swallowed(spec_lastCall().Err) ==> result == nil
 //@   ensures spec_lastCall().Err != nil && !spec_swallowed(spec_lastCall().Err) ==> result == spec_lastCall().Err
 
 //@ func GeneratorNewer.New
+//@   fresh-result
+//@   preserves pkg/gengo. go/ast. go/token. golang.org/x/tools/go/packages. except pkg/gengo.gengoCtx.defers, pkg/gengo.gengoCtx.ignore
 //@   note user code (custom constructor): unknown effects; ASSUMED to return a generator that shares no per-package state with earlier ones
 
 // spec_isNewer: the generator supplies its own constructor.
@@ -113,8 +268,9 @@ func spec_isNewer(g Generator) bool { _, ok := g.(GeneratorNewer); return ok }
 //@   props C05
 //@   requires generator != nil
 //@   assigns *
-//@   ensures !spec_isNewer(generator) ==> fresh(result) && result != generator
-//@   note every package gets its own generator value: unless the generator has a custom New, the result is a freshly allocated value (reflect.New), never the registered prototype
+//@   preserves pkg/gengo. go/ast. go/token. golang.org/x/tools/go/packages. except pkg/gengo.gengoCtx.defers, pkg/gengo.gengoCtx.ignore
+//@   ensures fresh(result)
+//@   note every package gets its own generator value: a freshly allocated one (reflect.New of the prototype's type), never the registered prototype itself; for a generator with a custom New this is the ASSUMED contract of that constructor (fresh-result)
 
 //@ func newGenfile
 //@   props C05 C07
@@ -139,6 +295,12 @@ func spec_isNewer(g Generator) bool { _, ok := g.(GeneratorNewer); return ok }
 //@ func Context.Package
 //@   pure
 //@   note interface method of gengo.Context (implemented by *gengoCtx): observer
+
+//@ func gengoCtx.Package
+//@   props C07 C05
+//@   pure
+//@   requires c != nil && (importPath == "" || c.universe != nil)
+//@   ensures importPath == "" ==> result == c.pkg
 
 // spec_importLines(keys, m, n): the import lines of the first n paths: TAB name SPACE "path" NEWLINE.
 func spec_importLines(keys []string, m map[string]string, n int) string {
@@ -191,6 +353,7 @@ const spec_parseMode = parser.ParseComments | parser.SkipObjectResolution | pars
 //@   effects
 //@   loop 1 assume forall i int :: 0 <= i && i < len(sl) ==> sl[i] != nil && 1 <= sl[i].Pos.Line && sl[i].Pos.Line <= len(lines)
 //@   note (loop 1 assume) go/scanner reports error positions inside the text it was given: entries non-nil, line numbers between 1 and the number of lines
+//@   ensures eq(spec_calls(), old(spec_calls())) && spec_callMark() == old(spec_callMark())
 //@   ensures len(old(spec_written(ff.body))) == 0 ==> result == nil && eq(spec_fx(), old(spec_fx())) && eq(spec_pipeline(), old(spec_pipeline()))
 //@   ensures len(spec_fx()) >= len(old(spec_fx())) && eq(spec_fx()[:len(old(spec_fx()))], old(spec_fx()))
 //@   ensures forall i int :: len(old(spec_fx())) <= i && i < len(spec_fx()) ==> spec_fx()[i].Path == spec_outPath(c.Package("").SourceDir(), args.OutputFileBaseName, ff.name) && (spec_fx()[i].Kind == spec_Open || spec_fx()[i].Kind == spec_Write)
@@ -230,6 +393,82 @@ func spec_itoa(n int) string { return strconv.Itoa(n) }
 //@   requires c != nil && c.genfile != nil
 //@   ensures result == ((c.genfile.body == nil || len(spec_written(c.genfile.body)) == 0) && !c.ignore)
 
+// spec_noFx: nothing happened to the file system since the log had length n.
+func spec_fxSince(n int) []spec_Effect { return spec_fx()[n:] }
+
+// spec_isOutput(e, dir, base): e creates/writes a generator output file <dir>/<base>.<generator>.go
+func spec_isOutput(e spec_Effect, dir string, base string) bool {
+	return (e.Kind == spec_Open || e.Kind == spec_Write) && spec_any(func(gen string) bool { return e.Path == spec_outPath(dir, base, gen) })
+}
+
+// spec_isStaleRemoval(e, p, base): e removes a file OF PACKAGE p whose base name starts with <base>.
+func spec_isStaleRemoval(e spec_Effect, p gengotypes.Package, base string) bool {
+	return e.Kind == spec_Remove && strings.HasPrefix(filepath.Base(e.Path), base+".") &&
+		spec_existsIn(0, len(p.Files()), func(i int) bool { return e.Path == p.FileSet().File(p.Files()[i].FileStart).Name() })
+}
+
+//@ func gengoCtx.pkgExecute
+//@   props C02 C07 C06 C05
+//@   requires c != nil && c.args != nil && c.universe != nil
+//@   requires forall i int :: 0 <= i && i < len(generators) ==> generators[i] != nil
+//@   requires c.universe.Package(pkg) != nil ==> spec_pkgOK(c.universe, c.universe.Package(pkg))
+//@   assigns *
+//@   preserves pkg/gengo. go/ast. go/token. golang.org/x/tools/go/packages. except pkg/gengo.gengoCtx.defers, pkg/gengo.gengoCtx.ignore
+//@   effects
+//@   fnvalue-calllog 3
+//@   ensures len(spec_fx()) >= len(old(spec_fx())) && eq(spec_fx()[:len(old(spec_fx()))], old(spec_fx()))
+//@   ensures len(spec_calls()) >= len(old(spec_calls())) && eq(spec_calls()[:len(old(spec_calls()))], old(spec_calls()))
+//@   ensures !old(c.pkgChanged(pkg)) ==> finalErr == nil && eq(spec_fx(), old(spec_fx())) && eq(spec_calls(), old(spec_calls()))
+//@   ensures finalErr != nil && len(spec_calls()) > len(old(spec_calls())) && spec_lastCall().Err != nil && !spec_swallowed(spec_lastCall().Err) && len(spec_fx()) == len(old(spec_fx())) ==> eq(spec_fx(), old(spec_fx()))
+//@   ensures len(spec_calls()) > len(old(spec_calls())) ==> spec_callMark() == len(old(spec_fx()))
+//@   ensures forall i int :: len(old(spec_fx())) <= i && i < len(spec_fx()) ==> spec_isOutput(spec_fx()[i], c.universe.Package(pkg).SourceDir(), c.args.OutputFileBaseName) || spec_isStaleRemoval(spec_fx()[i], c.universe.Package(pkg), c.args.OutputFileBaseName)
+//@   ensures forall i int, j int :: len(old(spec_calls())) <= i && i < len(spec_calls()) && 0 <= j && j < len(generators) && (spec_calls()[i].Kind == spec_GenType || spec_calls()[i].Kind == spec_GenAlias) ==> spec_calls()[i].Gen != generators[j]
+//@   loop 1 invariant p != nil && pkgCtx != nil && pkgCtx.pkg == p && pkgCtx.pkgTags != nil && pkgCtx.args == c.args && pkgCtx.universe == c.universe && generatedFiles != nil && eq(spec_fx(), old(spec_fx())) && eq(spec_calls(), old(spec_calls()))
+//@   loop 1 invariant forall k string :: has(generatedFiles, k) ==> strings.HasPrefix(k, c.args.OutputFileBaseName+".") && filepath.Base(generatedFiles[k]) == k && spec_existsIn(0, len(p.Files()), func(i int) bool { return generatedFiles[k] == p.FileSet().File(p.Files()[i].FileStart).Name() })
+//@   loop 2 invariant p != nil && pkgCtx != nil && pkgCtx.pkg == p && pkgCtx.pkgTags != nil && pkgCtx.args == c.args && pkgCtx.universe == c.universe
+//@   loop 3 invariant eq(spec_fx(), old(spec_fx())) && len(spec_calls()) >= len(old(spec_calls())) && eq(spec_calls()[:len(old(spec_calls()))], old(spec_calls()))
+//@   loop 3 invariant len(spec_calls()) > len(old(spec_calls())) ==> spec_callMark() == len(old(spec_fx()))
+//@   loop 3 invariant (forall r *gengoCtx :: existed(r) ==> r.l == old(r.l)) && (forall r *genfile :: existed(r) ==> r.SnippetWriter == old(r.SnippetWriter))
+//@   loop 3 invariant p != nil && pkgCtx != nil && pkgCtx.pkg == p && pkgCtx.args == c.args && pkgCtx.universe == c.universe && l != nil && spec_pkgOK(c.universe, p) && p == c.universe.Package(pkg)
+//@   loop 3 invariant forall i int :: 0 <= i && i < len(spec_mapVals(gfs)) ==> spec_goodGenfile(spec_mapVals(gfs)[i])
+//@   loop 3 invariant forall i int, j int :: len(old(spec_calls())) <= i && i < len(spec_calls()) && 0 <= j && j < len(generators) && (spec_calls()[i].Kind == spec_GenType || spec_calls()[i].Kind == spec_GenAlias) ==> spec_calls()[i].Gen != generators[j]
+//@   note loops 4-6 (defers, writes, removals) are annotated below
+//@   loop 4 assume forall i int :: 0 <= i && i < len(xs4) ==> xs4[i] != nil
+//@   note (loop 4 assume) callbacks registered with Defer are non-nil functions
+//@   loop 4 invariant eq(spec_fx(), old(spec_fx())) && len(spec_calls()) >= len(old(spec_calls())) && eq(spec_calls()[:len(old(spec_calls()))], old(spec_calls())) && (len(spec_calls()) > len(old(spec_calls())) ==> spec_callMark() == len(old(spec_fx())))
+//@   loop 4 invariant (forall r *gengoCtx :: existed(r) ==> r.l == old(r.l)) && (forall r *genfile :: existed(r) ==> r.SnippetWriter == old(r.SnippetWriter))
+//@   loop 4 invariant pkgCtxForGen != nil && pkgCtxForGen.genfile != nil && g != nil && p != nil && pkgCtx != nil && pkgCtx.pkg == p && l != nil
+//@   loop 4 invariant forall i int, j int :: len(old(spec_calls())) <= i && i < len(spec_calls()) && 0 <= j && j < len(generators) && (spec_calls()[i].Kind == spec_GenType || spec_calls()[i].Kind == spec_GenAlias) ==> spec_calls()[i].Gen != generators[j]
+
+//@   loop 5 invariant p != nil && pkgCtx != nil && pkgCtx.pkg == p && pkgCtx.args == c.args && spec_pkgOK(c.universe, p) && p == c.universe.Package(pkg) && eq(spec_calls(), entry(spec_calls()))
+//@   loop 5 invariant forall i int :: 0 <= i && i < len(ys5b) ==> spec_goodGenfile(ys5b[i])
+//@   loop 5 invariant len(spec_fx()) >= len(old(spec_fx())) && eq(spec_fx()[:len(old(spec_fx()))], old(spec_fx()))
+//@   loop 5 invariant forall i int :: len(old(spec_fx())) <= i && i < len(spec_fx()) ==> spec_isOutput(spec_fx()[i], p.SourceDir(), c.args.OutputFileBaseName)
+//@   loop 5 invariant forall k string :: has(generatedFiles, k) ==> strings.HasPrefix(k, c.args.OutputFileBaseName+".") && filepath.Base(generatedFiles[k]) == k && spec_existsIn(0, len(p.Files()), func(i int) bool { return generatedFiles[k] == p.FileSet().File(p.Files()[i].FileStart).Name() })
+//@   loop 6 invariant p != nil && p == c.universe.Package(pkg) && eq(spec_calls(), entry(spec_calls())) && len(spec_fx()) >= len(old(spec_fx())) && eq(spec_fx()[:len(old(spec_fx()))], old(spec_fx()))
+//@   loop 6 invariant forall i int :: len(old(spec_fx())) <= i && i < len(spec_fx()) ==> spec_isOutput(spec_fx()[i], p.SourceDir(), c.args.OutputFileBaseName) || spec_isStaleRemoval(spec_fx()[i], p, c.args.OutputFileBaseName)
+
+// spec_goodGenfile: a value stored in the per-package file table is a usable *genfile.
+func spec_goodGenfile(v any) bool {
+	g, ok := v.(*genfile)
+	return ok && g != nil && g.body != nil && g.imports != nil
+}
+
+// spec_pkgOK: what the framework needs of a loaded package of the universe.
+func spec_pkgOK(u *gengotypes.Universe, p gengotypes.Package) bool {
+	return p != nil && p.Pkg() != nil && p.Module() != nil && p.FileSet() != nil &&
+		spec_forallIn(0, len(p.Files()), func(i int) bool { return p.Files()[i] != nil }) &&
+		spec_all(func(n string) bool {
+			return !spec_has(p.Types(), n) || (p.Types()[n] != nil && spec_objOKU(u, spec_namedObj(p.Types()[n])))
+		})
+}
+
+func spec_objOKU(u *gengotypes.Universe, o types.Object) bool {
+	return o != nil && o.Pkg() != nil && u.Package(o.Pkg().Path()) != nil
+}
+
+func spec_isGenfile(v any) bool { _, ok := v.(*genfile); return ok }
+
 //@ func snippetWriter.Dumper
 //@   props C01
 //@   pure
@@ -254,6 +493,7 @@ func spec_concatN(xs []string, n int) string {
 //@ func gengoCtx.pkgChanged
 //@   props C08
 //@   pure
+//@   functional
 //@   requires c != nil && c.args != nil && c.universe != nil
 //@   ensures c.args.Force ==> result
 //@   ensures c.sumFile == nil || c.universe.SumFile() == nil ==> result
@@ -274,6 +514,8 @@ func spec_eq[T any](a, b T) bool                        { panic("ghost: structur
 func spec_all[T any](p func(T) bool) bool               { panic("ghost: unbounded quantifier") }
 func spec_any[T any](p func(T) bool) bool               { panic("ghost: unbounded quantifier") }
 func spec_fresh(p any) bool                             { panic("ghost: allocation predicate") }
+// spec_existed(p): the object p refers to already existed when the function under verification was entered.
+func spec_existed(p any) bool { panic("ghost: allocation predicate") }
 func spec_assert(c bool) {
 	if !c {
 		panic("ghost assertion failed")
@@ -357,6 +599,9 @@ const (
 	spec_Deferred = 3
 )
 
+// spec_callMark(): len(spec_fx()) at the moment user code was most recently invoked (ghost): relates the two logs in time.
+func spec_callMark() int { panic("ghost: call mark") }
+
 // spec_calls(): the call log so far, in order (ghost).
 func spec_calls() []spec_Call { panic("ghost: call log") }
 
@@ -367,3 +612,7 @@ func spec_pipeline() []string { panic("ghost: formatter pipeline log") }
 // spec_parsed() / spec_parsedName(): the source text and file name most recently handed to go/parser (ghost).
 func spec_parsed() string     { panic("ghost: parsed text") }
 func spec_parsedName() string { panic("ghost: parsed file name") }
+
+// spec_mapKeys(m) / spec_mapVals(m): the keys and values stored so far in a sync.Map, in insertion order (ghost).
+func spec_mapKeys(m any) []any { panic("ghost: sync.Map keys") }
+func spec_mapVals(m any) []any { panic("ghost: sync.Map values") }
